@@ -132,6 +132,22 @@ def run(project, chk):
         chk.check(colour is not None and org.at(colour) == ("attr", ("param", "self"), "original"), "W2", parse.short, norm_text(c), project.loc(parse.module, c), "the colour parsed is the constructor's input", how="first argument is self.original",
                   message="the colour parsed is not the constructor's input")
 
+    # W2 (cont.): the context is used whenever it is there and valid -- no further condition decides whether it reaches the parser
+    pcfg = build_cfg(parse.node)
+    pG = guard_states(pcfg)
+    n_ctx = 0
+    for pn in pcfg.nodes:
+        for e in node_exprs(pn):
+            for x in ast.walk(e):
+                if isinstance(x, ast.Attribute) and x.attr in ("rgb", "_rgb") and isinstance(x.ctx, ast.Load) and norm_text(x.value) == "self.background_context":
+                    n_ctx += 1
+                    lits = common_literals(pG.get(pn.id))
+                    extra = sorted(t for (t, v) in lits if not (t.startswith("self.background_context") or t in ("self._parsed", "self._parsed is True", "self._parsed is False")))
+                    chk.check(not extra, "W2", parse.short, norm_text(x), project.loc(parse.module, x), "the context's rgb is taken whenever a valid context was given",
+                              how=f"guards: {sorted(lits)}",
+                              message=f"the context's rgb is only taken when `{extra[0] if extra else ''}` also holds: other translucent spellings (RGBA tuples, `rgb(r g b / a)`, four bare numbers) are composited over white instead of the pair's own background")
+    chk.floor("reads of the compositing context's rgb in Color._parse", n_ctx, 1)
+
     # ---------------------------------------------------------------- W5: the composite is what the optimiser is given
     chk.rule("W5", "ColorPair.make_readable hands the optimiser the composited colours (self.text.rgb / ._rgb and self.bg.rgb / ._rgb), not the raw inputs (which would be re-composited over white)")
     mr = project.func(f"{COLORS}.ColorPair.make_readable")
